@@ -168,7 +168,9 @@ func libOpts() genOpts { return genOpts{lib: true, prefix: "m", minLines: 1, max
 
 func TestParseRoundTrip(t *testing.T) {
 	rapid.Check(t, ev.Prop(prop, "parse_roundtrip", func(t *rapid.T, c *ev.Case) {
-		o := genCase(rapidSrc{t}, libOpts())
+		opt, strict := withEnvSwitches(libOpts())
+		o := genCase(rapidSrc{t}, opt)
+		o.cs.Strict = strict
 		commit(c, o)
 		v, err := checkLib(o.cs)
 		if _, inc := err.(ev.InconclusiveError); inc {
